@@ -456,6 +456,25 @@ def c07_custom_alloc():
     return gen
 
 
+def c07_switch():
+    """Keys loaded under one provider and released under the other (the provider is switched between the load and
+    every removal route): whoever allocated the key object, removal releases it - leak check after every case."""
+    good = [asym("rsa2048a", 1, "RS256"), asym("rsa2048a", 0), asym("p256a", 1, "ES256"), asym("p384a", 0), asym("ed25519a", 1), asym("ed448a", 0),
+            octk(32, alg="HS256", kid="o")]
+    routes = [[dict(op="ItemFree", ring=0, index=0), dict(op="RingFree", ring=0)], [dict(op="FreeAll", ring=0), dict(op="RingFree", ring=0)],
+              [dict(op="RingFree", ring=0)], [dict(op="FreeBad", ring=0), dict(op="ItemFree", ring=0, index=1), dict(op="RingFree", ring=0)]]
+
+    def gen(seed):
+        for a in ("openssl", "gnutls"):
+            for b in ("openssl", "gnutls"):
+                for i, k in enumerate(good):
+                    for r in routes:
+                        yield [dict(op="Ops", name=a),
+                               dict(op="Load", ring=0, via="create", doc="keys", keys=[k, good[(i + 2) % len(good)]]),
+                               dict(op="Ops", name=b)] + r
+    return gen
+
+
 def c07_fuzz(ncases, per_case):
     """Random byte strings, random JSON and byte-mutated JWKS texts through every entry point.
     Their JSON-ness is unknown to the generator (doc class "anyraw"): only 'returns, no sanitizer
@@ -698,6 +717,9 @@ def c11_sweep(maxbytes):
             ops.append(dict(op="Codec", dir="dec", chars=list(t)))
             ops.append(dict(op="Codec", dir="dec", chars=list(base64.urlsafe_b64encode(b))))     # padded
             ops.append(dict(op="Codec", dir="dec", chars=list(t + b"A")))
+            if n <= 96 and n > 0:
+                # a run of '=' longer than any padding (whatever the decoder makes of it, it stays inside its buffers)
+                ops.append(dict(op="Codec", dir="dec", chars=list(t + b"=" * (3 + n % 14))))
             ops.append(dict(op="Codec", dir="enc", bytes=list(b)))
             if len(ops) >= 40:
                 yield ops
